@@ -1,3 +1,4 @@
+import Hm.FuelMono
 import Hm.C15Fields
 import Hm.C04Whole
 import Hm.C13EndToEnd
@@ -115,3 +116,6 @@ import Hm.Statements
 #print axioms C04_accept_sound
 #print axioms C15_zlib_field_altered
 #print axioms C15_gzip_field_altered
+#print axioms C15_gunzip_truncated
+#print axioms C15_zlibDecode_truncated
+#print axioms C15_inflateRaw_truncated
